@@ -14,7 +14,12 @@ TRUSTED = [
     "Coq 8.16.1 kernel (coqc, full .vo build); vm_compute only for the non-vacuity Examples and case evaluation",
     "hand model Model/DsMap.v of a labelled dataset and of is_case_missing / find_missing_cases / parse_into_cases "
     "(xyzpy/gen/case_runner.py) and of harvesting cases as an update of the cell maps; tied to the code by "
-    "differential execution only (no translator: the code is xarray calls)",
+    "differential execution",
+    "translator harness/translator/gen_missing.py (Python ast, statement shapes, fail closed): the two reductions "
+    "(.all()), the KeyError answer, the default criterion and the forwarding of `method` by find_missing_cases and "
+    "parse_into_cases are read from the source into Gen/GenMissing.v; that fn_args = ds.dims minus ignore_dims, the "
+    "iteration of ds[arg].data and the dict merge have the expected shape is checked by the translator (refused "
+    "otherwise); bridge lemmas Bridge/BridgeMissing.v tie the regenerated functions (Model/Missing.v) to Model/DsMap.v",
     "modelled, not proved: xarray Dataset.sel (label look-up, KeyError on an absent label or unknown dimension, "
     "a dimension a variable lacks is ignored for it), isnull (NaN / None), numpy isfinite, all() per variable then "
     "to_array().all(), the iteration order of Dataset.dims and of ds[dim].data, merge(compat='no_conflicts') / "
@@ -366,7 +371,9 @@ def run_case(case, tmp):
                 ds0, fa0, miss0, ds1, fa1, miss1 = M.real_loop(ds, desc, q["ignore"], m, os.path.join(tmp, "full.h5"))
                 v0 = M.View(ds0)
                 exp_args, exp0 = v0.expected_find(set(q["ignore"]), m)
-                if (fa0, miss0) != (exp_args, exp0):
+                if fa0 != exp_args:
+                    fail(i, "loop:find:wrong-dimensions", f"fn_args {fa0}, expected {exp_args}")
+                elif miss0 != exp0:
                     fail(i, "loop:" + _classify(miss0, exp0), f"first find reported {miss0}, expected {exp0}")
                 if miss1:
                     fail(i, "loop:still-missing-after-harvesting-reported-cases",
@@ -503,14 +510,39 @@ def directed_cases():
     return [{"desc": desc, "queries": qs}]
 
 
+def wiring_diff():
+    """What the translator read from the source vs what the model assumes (evaluated in Coq)."""
+    try:
+        return core.eval_model("Prelude Grid DsMap Missing GenMissing", ["enc_wiring gen_wiring", "enc_wiring model_wiring"])
+    except RuntimeError as e:
+        return ["(evaluation failed) " + str(e)[-300:]]
+
+
 def run(tier, seed):
     c = core.Check("C13", tier, seed)
-    core.regen()
+    gen = core.regen()
     b = core.build(PROP_FILE)
+    g = gen.get("GenMissing", {"ok": False, "detail": "unit GenMissing is not registered"})
+    c.cov["translator"] = g
     c.cov["build"] = {"ok": b["ok"], "failed_file": b["failed_file"], "wall_s": round(b.get("wall_s", 0), 1)}
+    if not g["ok"]:
+        c.obligation_broken("translator GenMissing", g["detail"])
     if not b["ok"]:
         c.obligation_broken(f"Coq build of {b['failed_file']}", b["log_tail"][-1200:])
-    n = 700 if (tier == "thorough" or c.broken) else 130
+        if g["ok"]:
+            c.cov["gen_vs_model_wiring"] = wiring_diff()
+    if b["ok"] and tier == "thorough":
+        # independent re-check of the compiled closure of Props/C13.vo
+        import fcntl
+        with open(core.LOCK, "w") as lk:
+            fcntl.flock(lk, fcntl.LOCK_EX)
+            rc, out = core.sh("timeout 600 coqchk -silent -o -R . XV XV.Props.C13", timeout=630, cwd=core.COQ)
+        tail = [ln.strip() for ln in out.splitlines() if "relying on" in ln or "assumed" in ln or "Axioms" in ln]
+        c.cov["coqchk"] = {"cmd": "coqchk -silent -o -R . XV XV.Props.C13", "ok": rc == 0, "summary": tail}
+        if rc != 0:
+            c.obligation_broken("coqchk of Props/C13.vo", out[-800:])
+    # a broken obligation widens the search to the thorough stream
+    n = 2200 if tier == "thorough" else 900 if c.broken else 330
     tmp = core.scratch_dir("xv-c13-")
     try:
         cases = directed_cases() + [gen_case(c.rng) for _ in range(n)]
